@@ -91,8 +91,22 @@ def build(ctx):
                     return v
         return be.Verdict(be.PROVED, "CAS", detail="four argument combinations")
 
+    def defaults_replay(w):
+        import numpy as np
+        Fc = real(FC + "ForecasterOnePhase")
+        rf = lambda x: 1.0 - np.exp(-np.sqrt(np.asarray(x, dtype=float)))
+        fc = Fc(rf)
+        fc.M_, fc.tau_ = 1234.5, 67.0
+        t_ = np.array([0.0, 1.0, 10.0, 100.0, 500.0])
+        for kw, (em, et) in (({}, (1234.5, 67.0)), ({"M": 10.0}, (10.0, 67.0)), ({"tau": 5.0}, (1234.5, 5.0)), ({"M": 10.0, "tau": 5.0}, (10.0, 5.0))):
+            got = np.asarray(fc.forecast_cum(t_, **kw), dtype=float)
+            want = em * rf(t_ / et)
+            if not close(got, want, 1e-13):
+                return {"reproduced": True, "input": {"fitted": {"M_": 1234.5, "tau_": 67.0}, "call": kw, "time": t_.tolist(), "rf_curve": "1 - exp(-sqrt(x))"}, "observed": got.tolist(), "required": want.tolist()}
+        return {"reproduced": False}
+
     obs.append(Obligation("forecast_cum.defaults", "forecast_cum(t, M, tau) == M' rf(t/tau') with M' = M if given else self.M_, tau' = tau if given else self.tau_", defaults,
-                          [FC + "ForecasterOnePhase.forecast_cum", F1], "CAS"))
+                          [FC + "ForecasterOnePhase.forecast_cum", F1], "CAS", defaults_replay))
 
     # ---- Bounds.__post_init__
     def post_init():
